@@ -16,7 +16,8 @@ import (
 // $file bound (DESIGN.md 4.1 is the oracle, implemented by refjq's driver).
 
 type c02Cfg struct {
-	allArrays bool // every root of the configuration is an array ($index observable)
+	allArrays    bool // every root of the configuration is an array ($index observable)
+	rootReplaced bool // some BEGINFILE rule assigns $ (then $ is not observed in ENDFILE)
 }
 
 var c02Kinds = []string{"BEGIN", "END", "BEGINFILE", "ENDFILE", "pattern"}
@@ -98,8 +99,13 @@ func c02Body(t *rapid.T, id, kind string, cfg c02Cfg, labels map[string]bool) *a
 		if rapid.Bool().Draw(t, "obsdollar") {
 			obs = append(obs, ast.Dollar())
 		}
-	case "BEGINFILE", "ENDFILE":
+	case "BEGINFILE":
 		obs = append(obs, ast.Id("$file"), ast.Dollar())
+	case "ENDFILE":
+		obs = append(obs, ast.Id("$file"))
+		if !cfg.rootReplaced {
+			obs = append(obs, ast.Dollar())
+		}
 	case "pattern":
 		obs = append(obs, ast.Id("$file"))
 		if cfg.allArrays && rapid.Bool().Draw(t, "obsindex") {
@@ -109,6 +115,11 @@ func c02Body(t *rapid.T, id, kind string, cfg c02Cfg, labels map[string]bool) *a
 		obs = append(obs, ast.Dollar())
 	}
 	stmts := []*ast.Node{ast.Print(obs...)}
+	if kind == "BEGINFILE" && cfg.rootReplaced && rapid.Bool().Draw(t, "assignroot") {
+		// assigning $ in BEGINFILE replaces the root for the pattern rules that follow
+		stmts = append(stmts, ast.ExprS(ast.Set(ast.Dollar(), c02Selector(t))), ast.Print(ast.Str(id+"-root"), ast.Dollar()))
+		labels["beginfile-assigns-root"] = true
+	}
 	var tail *ast.Node
 	switch rapid.IntRange(0, 9).Draw(t, "tail") {
 	case 0, 1:
@@ -184,6 +195,10 @@ func genC02(t *rapid.T) (*DCase, map[string]bool) {
 		labels["multi-file"] = true
 	}
 	cfg := c02Cfg{allArrays: allArrays}
+	if rapid.IntRange(0, 4).Draw(t, "rootreplaced") == 0 {
+		cfg.rootReplaced = true
+		cfg.allArrays = false
+	}
 
 	// rules
 	nrules := rapid.IntRange(1, 8).Draw(t, "nrules")
@@ -240,7 +255,7 @@ func genC02(t *rapid.T) (*DCase, map[string]bool) {
 
 func TestC02(t *testing.T) {
 	rec := start(t, "C02", "exploration",
-		"tracing programs: 1-8 rules drawn from the five kinds in random order (up to 3 of each special kind), each body printing its id and the observables $file / $ / $index, optionally followed by next / exit (bare or guarded by a data condition) and a further print; patterns absent, constants of every truthiness class, or data conditions; bodiless pattern rules; 1-3 files x 0-3 JSON values per file x 0-2 selectors x root shapes (arrays of 0-4 elements, objects, scalars, null). Expected trace from refjq's rule driver (DESIGN.md 4.1). Non-trivial: >= 2 rule kinds, some kind with >= 2 rules, >= 2 input values. distinct = distinct (program, selectors, input).")
+		"tracing programs: 1-8 rules drawn from the five kinds in random order (up to 3 of each special kind), each body printing its id and the observables $file / $ / $index, optionally followed by next / exit (bare or guarded by a data condition) and a further print; BEGINFILE rules may assign $ (replacing the root for the pattern rules); patterns absent, constants of every truthiness class, or data conditions; bodiless pattern rules; 1-3 files x 0-3 JSON values per file x 0-2 selectors x root shapes (arrays of 0-4 elements, objects, scalars, null). Expected trace from refjq's rule driver (DESIGN.md 4.1). Non-trivial: >= 2 rule kinds, some kind with >= 2 rules, >= 2 input values. distinct = distinct (program, selectors, input).")
 	defer rec.Finish()
 	rec.Assume("refjq's driver is the documented schedule (DESIGN.md 4.1); object key order in printed values is accepted in any order")
 	rec.Replayer("schedule", replayDiff(false))
